@@ -129,27 +129,27 @@ Proof. exact nearest_most_recent. Qed.
 Print Assumptions nearest_is_most_recent.
 
 (* ---- the memo of commodity_t::find_price ---- *)
-(* once every price has been recorded (the journal has been read), memoised lookups answer
-   exactly what plain lookups answer *)
-Theorem memo_transparent_after_load : forall adds finds g,
-  only_finds finds ->
-  fst (run_ops (mkState g []) (map OAdd adds ++ finds)) = plain_ops g (map OAdd adds ++ finds).
-Proof. exact run_adds_then_finds. Qed.
-Print Assumptions memo_transparent_after_load.
+(* Recording a price clears every commodity's memo (commodity.cc:62-66): memoised lookups
+   answer exactly what plain lookups answer, for every interleaving of lookups and recordings. *)
+Theorem memo_transparent : forall g ops,
+  fst (run_ops (mkState g []) ops) = plain_ops g ops.
+Proof. exact run_ops_transparent. Qed.
+Print Assumptions memo_transparent.
 
-(* ... but not when a lookup is made while prices are still being recorded: recording a price
-   clears only the memo of the commodity the price is FOR (commodity.cc:62).  Witness: BBB is
-   looked up in AAA before `P .. AAA 3 BBB` is read; the remembered "no price" survives. *)
+(* at the level of a report: a journal in which expressions evaluated while it is read look
+   prices up (JLook) shows under -X what the same journal without those lookups shows *)
+Theorem parse_time_lookups_invisible : forall l held t D,
+  bal_row_memo l held t D = bal_row (items_of l) held (Some t) D.
+Proof. exact bal_row_memo_plain. Qed.
+Print Assumptions parse_time_lookups_invisible.
+
+(* Before /repo commit abcbc62 recording a price cleared only the memo of the commodity the
+   price was FOR, and the statement above was false of that code: with
+     [OFind BBB AAA 100; OAdd (AAA costs 3 BBB at 50); OFind BBB AAA 100]
+   the memoised session answered [None; None], the plain one [None; Some (1/3 AAA)]. *)
 Definition cA : comm := [65; 65; 65].
 Definition cB : comm := [66; 66; 66].
 Definition cC : comm := [67; 67; 67].
-Definition stale_ops : list op :=
-  [OFind cB cA 100; OAdd (mkEntry 50 cA (mkPrice (3 # 1) cB)); OFind cB cA 100].
-
-Theorem memo_transparent_refuted : exists ops,
-  fst (run_ops (mkState [] []) ops) <> plain_ops [] ops.
-Proof. exists stale_ops. vm_compute. discriminate. Qed.
-Print Assumptions memo_transparent_refuted.
 
 (* ---- the hypotheses are satisfiable: a chain AAA -> BBB -> CCC with a tie and a future price ---- *)
 Definition ex_h : history :=
